@@ -586,7 +586,7 @@ fn string_cases(thorough: bool) -> Vec<(String, Vec<StrSpec>)> {
     let (nl, nc) = if thorough { (1300usize, 2500usize) } else { (300, 600) };
     for l in 0..=nl {
         let a: String = "abcdefghijklmnopqrstuvwxyz".chars().cycle().take(l).collect();
-        let b: String = "漢字".chars().cycle().take(l / 2).collect::<String>() + if l % 2 == 1 { "z" } else { "" };
+        let b: String = (if l % 2 == 1 { "z" } else { "" }).to_string() + &"漢字".chars().cycle().take(l / 2).collect::<String>(); // lead bytes at odd offsets for odd l, even for even l
         v.push((format!("strings of {} bytes", l), vec![[Some(a.clone()), Some(b.clone()), None, None, Some(a.clone())], [Some(b), None, Some(a), None, None]]));
     }
     for n in 0..=nc {
